@@ -8,6 +8,7 @@ structure RespSt where
   active : Bool := false
   status : Nat := 0
   hdr : Header := []
+  ageSecond : Option String := none   -- Age header of the hit served from memory (path `second`)
   enc : Str := []
   sym : Str := []
   body : Str := []
@@ -67,6 +68,9 @@ def judgeResp (st : RespSt) (fields : List String) : RespSt × String :=
       -- the upstream's own Age is an end-to-end header of its answer: an answer that is not served from pike's cache
       -- carries it unchanged (a hit carries the age pike computed)
       let upAge := st.hdr.values "Age".toList
+      -- … and a hit restored from the store states the same age as the hit served from memory at the same instant
+      let trip := trip ++ (if path = "restored" ∧ xs = "hit".toList ∧ st.ageSecond.isSome ∧ st.ageSecond ≠ some age then " TRIP roundtrip_differs:age" else "")
+      let st := if path = "second" then { st with ageSecond := if xs = "hit".toList then some age else none } else st
       let trip := trip ++ (if code = st.status ∧ xs ≠ "hit".toList ∧ !upAge.isEmpty ∧ (unhex age).map (fun a => [a]) ≠ some upAge then " TRIP status_or_header_changed" else "")
       -- model
       let hit := st.cacheable ∧ (path = "second" ∨ path = "again" ∨ path = "restored")
